@@ -92,6 +92,19 @@ class Driver:
             c = Cell(r.f[0])
             temps.append(c)
             return Ref(c)
+        if kind == 'found':
+            base = self.handle(h[1], temps)
+            ap = self.algo_path('Bfs')
+            sobj = self.node_call('bfs', [base])
+            sobj = self.ex.call(f'{ap}::target', [sobj, Ref(Cell(self.keys[h[2]]))])
+            sc = Cell(sobj)
+            r = self.ex.call(f'{ap}::search', [Ref(sc)])
+            self.ex.drop(sc.v)
+            if r.variant == 0:
+                raise Unsupported('handle expression yields None')
+            c = Cell(r.f[0])
+            temps.append(c)
+            return Ref(c)
         if kind == 'graph':
             r = self.ex.call(f'{self.GRAPH}::<K, N, E>::get', [Ref(self.graph), Ref(Cell(self.val(h[1])))])
             if r.variant == 0:
@@ -223,6 +236,17 @@ class Driver:
         if self.directed:
             return [self.node_call('out_degree', [r]), self.node_call('in_degree', [r])]
         return [self.node_call('degree', [r])]
+
+    def op_edge_eq(self, u, i, v, j):
+        """`==` of the i-th iterated edge of node u and the j-th of node v"""
+        kind = 'out' if self.directed else 'adj'
+        eu = self.iter_edges(Ref(self.nodes[u]), kind)
+        ev = self.iter_edges(Ref(self.nodes[v]), kind)
+        a, b = Cell(eu[i]), Cell(ev[j])
+        r = self.ex.call(f'<{self.fl}::node::Edge<K, N, E> as PartialEq>::eq', [Ref(a), Ref(b)])
+        for e in eu + ev:
+            self.ex.drop(e)
+        return r
 
     def op_clone_drop(self, u):
         t = []
